@@ -130,7 +130,71 @@ def search(ctx, focus=(), deep=1):
             signal.setitimer(signal.ITIMER_REAL, 0)
         env.drain_process()
     env.reset_dispatcher()
+    stream_liveness(ctx, env, protos, r, frames)
+    env.reset_dispatcher()
     ctx.sample({'input_kinds': 'prefixes 1..6, dropped/duplicated/sign-flipped/zeroed elements, cross-protocol frames, garbage, 3000-element list', 'n_inputs': len(inputs)})
+
+
+def stream_liveness(ctx, env, protos, r, frames):
+    """the REAL DecodeThread with the real dispatcher: residues of every small length and shape, each followed by an idle
+    timeout (the universal-fallback branch of run()), then a good frame: the thread must be alive and must still deliver.
+    `buffer_event.wait(0.1)` is made to time out at once when nothing is pending, so no real time is spent idling."""
+    import threading, time as _t
+    DecodeThread = env.protocols._original_module.DecodeThread if hasattr(env.protocols, '_original_module') else env.protocols.DecodeThread
+
+    class IdleEvent(threading.Event):
+        def wait(self, timeout=None):
+            if timeout is not None:
+                return self.is_set()                # the idle timeout elapses immediately
+            return threading.Event.wait(self, 5.0)
+
+    crashed = []
+    old_hook = threading.excepthook
+    threading.excepthook = lambda a: crashed.append(a.exc_type.__name__)
+    nec = protos.frames(protos.encode(protos.by_name('NEC'), dict(device=1, sub_device=2, function=3)))[0]
+    residues = []
+    for n in range(1, 15):
+        residues.append([(1 if i % 2 == 0 else -1) * (500 + 37 * i) for i in range(n)])                    # stops abruptly, all distinct
+        residues.append([(1 if i % 2 == 0 else -1) * (500 if i % 4 < 2 else 1500) for i in range(n)])      # two values
+        g = [(1 if i % 2 == 0 else -1) * 700 for i in range(n)]
+        if n >= 2 and n % 2 == 0:
+            g[-1] = -30000                                                                               # ends in a long gap
+        residues.append(g)
+    for _ in range(20):
+        residues.append(ec.garbage(r))
+    try:
+        for res in residues:
+            if not res:
+                continue
+            env.reset_dispatcher()
+            t = DecodeThread(env.protocols)
+            t.daemon = True
+            t.buffer_event = IdleEvent()
+            t.start()
+            ctx.count(('stream-residue', tuple(res[:40]), len(res)), nontrivial=len(res) > 1)
+            del crashed[:]
+            t.append(list(res), 38000)
+            dl = _t.time() + 3.0
+            while _t.time() < dl and t.is_alive() and (t.buffer or t.buffer_event.is_set() or t.decode_universal):
+                _t.sleep(0.001)
+            _t.sleep(0.002)
+            alive = t.is_alive()
+            if alive:
+                t.append(list(nec), 38000)
+                dl = _t.time() + 3.0
+                while _t.time() < dl and t.is_alive() and (t.buffer or t.buffer_event.is_set()):
+                    _t.sleep(0.001)
+                alive = t.is_alive()
+            if not alive or crashed:
+                ctx.violation('DecodeThread.run', 'thread-dies', 'the streaming thread died (%s) after an undecodable residue of %d timings %s followed by an idle timeout' % (
+                    ','.join(crashed) or 'no exception seen', len(res), res[:12]), dict(n=len(res), exc=(crashed or [None])[0]), input=dict(data=res, source='stream-residue'))
+            t.stop_event.set()
+            t.buffer_event.set()
+            t.join(1.0)
+            del env.process_worker.queue[:]
+            del env.timer_worker.queue[:]
+    finally:
+        threading.excepthook = old_hook
 
 
 def check(ctx):
